@@ -529,7 +529,7 @@ class Verifier:
             return s, s.check(*labs)
         # (1) nonlinear abstraction first: linear + EUF, fast and stable; only `unsat` is trusted
         s, r = attempt(sym.abstract_nl, TIMEOUT_MS)
-        if r != z3.unsat:
+        if r != z3.unsat and not os.environ.get("PYVC_NO_EXACT"):
             # (2) exact query
             s, r = attempt(lambda f: f, TIMEOUT_MS)
         if r == z3.unknown:
